@@ -382,6 +382,8 @@ def run_unit(unit, tier, scratch, keep=False):
         if f in flags:
             flags.remove(f)
     flags += unit.get("flags", [])
+    if "--malloc-may-fail" not in flags:
+        flags += ["--no-malloc-may-fail"]   # cbmc 6 lets malloc fail by default; units opt in explicitly
     if tier == "thorough":
         flags += unit.get("flags_thorough", [])
     if unit.get("unwind"):
@@ -431,6 +433,8 @@ def run_unit(unit, tier, scratch, keep=False):
     res.instr_obs = 0
     for rr in results:
         ob = obligation_record(rr, wd)
+        if ".no-body." in (ob["id"] or "") and any(ob["id"].endswith("no-body." + f) for f in unit.get("allow_no_body", [])):
+            continue
         if ob["description"].startswith("COVER"):
             res.cover_obs.append(ob)
             continue
